@@ -17,7 +17,12 @@ func rewardStep() func(t *rapid.T, w *world.World) world.Action {
 		f := w.F()
 		if len(w.Agenda) == 0 && len(f.Order) > 0 && rapid.IntRange(0, 99).Draw(t, "allow?") < 6 {
 			id := rapid.SampledFrom(f.Order).Draw(t, "allowchain")
-			if denom := w.ProviderVoucherDenom(id, "stake"); denom != "" {
+			// mostly the consumer's own voucher denom, sometimes the one of another consumer
+			src := id
+			if rapid.IntRange(0, 3).Draw(t, "foreign-denom") == 0 {
+				src = rapid.SampledFrom(f.Order).Draw(t, "denomchain")
+			}
+			if denom := w.ProviderVoucherDenom(src, "stake"); denom != "" {
 				if rapid.IntRange(0, 3).Draw(t, "global") == 0 && !w.Busy(world.GovProposer) {
 					return world.Action{Kind: world.KGovRewardDenoms, Sender: "gov", Denoms: []string{denom}}
 				}
